@@ -69,7 +69,7 @@ func (in *Interp) initAllowed(p *ssa.Package) bool {
 		"github.com/rivo/uniseg", "github.com/mattn/go-runewidth",
 		"golang.org/x/exp/slices", "golang.org/x/exp/constraints", "encoding/hex", "encoding/base64",
 		"container/list", "io/fs", "path", "golang.org/x/image/draw", "golang.org/x/image/math/f64",
-		"encoding/binary", "container/heap", "iter", "unique", "hash", "hash/crc32", "hash/adler32":
+		"encoding/binary", "container/heap", "context", "iter", "unique", "hash", "hash/crc32", "hash/adler32":
 		return true
 	}
 	return false
@@ -328,6 +328,7 @@ func init() {
 		// ------------------------------------------------------------ time
 		"time.Now":   intrNoop,
 		"time.Since": intrNoop,
+		"time.Until": intrNoop,
 		"time.Sleep": intrNoop,
 		"(time.Time).Sub": intrNoop, "(time.Time).After": intrNoop, "(time.Time).Before": intrNoop,
 		"(time.Time).Add": func(in *Interp, fn *ssa.Function, a []Value, _ ssa.CallInstruction) Value { return a[0] },
